@@ -561,7 +561,7 @@ func genGraffitiProvider(t *rapid.T) GraffitiProviderSpec {
 func genProposeCase(t *rapid.T) Case {
 	c := &ProposeCase{
 		Slot:           genSlot(t),
-		ValidatorIndex: rapid.SampledFrom([]uint64{0, 1, 12345, ^uint64(0)}).Draw(t, "validatorIndex"),
+		ValidatorIndex: genU64(t, "validatorIndex"),
 		Randao:         rapid.SampledFrom([]byte{0x01, 0xc0, 0xff, 0xff, 0xff, 0xff, 0xff, 0xff, 0xff, 0xff, 0xff, 0xff, 0xff, 0xff, 0xff, 0x00}).Draw(t, "randao"),
 		NoAccount:      rapid.IntRange(0, 29).Draw(t, "noAccount") == 0,
 		Provider:       rapid.SampledFrom([]string{"direct", "best"}).Draw(t, "provider"),
